@@ -30,8 +30,8 @@
 
    Huge CU: a relay whose CuSum is 2^64-5 is written cu = Wrap.  The spec compares and adds on the
    naturals (Sat), i.e. it states the INTENDED behaviour: such a relay can never fit a badge
-   allocation or a limit.  The code as found adds in uint64 and wraps (F22: checkBadge accepts it,
-   usage counters shrink); the repaired comparison (fixes/F22_badge_cu_overflow.patch) behaves like
+   allocation or a limit.  The code as found adds in uint64 and wraps (F2b: checkBadge accepts it,
+   usage counters shrink); the repaired comparison (fixes/F2b_badge_cu_overflow.patch) behaves like
    the spec.  Only the c18 generator draws it (mutation "badgehuge").
 
    F2Fixed selects the transcription of EnforceClientCUsUsageInEpoch: FALSE = the code as found
